@@ -5,7 +5,7 @@
    the model's formatter is C01's round trip; it is executed on every case of the check.) *)
 From Coq Require Import List NArith ZArith Bool Lia.
 From GoPdf.Base Require Import Bytes Res.
-From GoPdf.C02 Require Import Obj Dec Syntax Writer WriterProofs LayoutProofs.
+From GoPdf.C02 Require Import Obj Dec Syntax Writer WriterProofs LayoutProofs Reader ReaderProofs ChainProofs.
 From GoPdf.C03 Require Import PSyntax Validate.
 Import ListNotations.
 Open Scope N_scope.
@@ -40,6 +40,51 @@ Proof.
     try discriminate H; auto.
   apply andb_true_iff in H as [H H3]. apply andb_true_iff in H as [H1 H2].
   apply Nat.eqb_eq in H2. auto.
+Qed.
+
+(* ---- every stream dictionary the model writer renders passes the validator's check of /Filter
+   against /DecodeParms, as the validator sees it (parsed, i.e. normalised) ---- *)
+Lemma forallb_is_name_nm fs : forallb is_name (map nm fs) = true.
+Proof. induction fs as [|f fs IH]; [reflexivity | exact IH]. Qed.
+
+Lemma prepr_entries_ok fs : forall pp, Forall2 prepr fs pp -> forallb parm_entry_ok (map norm pp) = true.
+Proof.
+  induction fs as [|f fs IH]; intros pp H; inversion H as [|f' o fs' pp' Hf Hr]; subst; [reflexivity|].
+  cbn [map forallb]. rewrite (IH _ Hr), andb_true_r.
+  destruct Hf as [->|[_ ->]]; reflexivity.
+Qed.
+
+Lemma chain_repr_filters_ok fs sd :
+  chain_repr fs sd -> single k_Filter sd -> single k_DecodeParms sd ->
+  filters_ok (norm_parms sd) = true.
+Proof.
+  intros H S1 S2. unfold filters_ok, dget.
+  change n_Filter with k_Filter. change n_DecodeParms with k_DecodeParms.
+  rewrite !dict_get_norm_parms, S1, S2.
+  destruct fs as [|f0 [|f1 fs]].
+  - destruct H as [-> ->]. reflexivity.
+  - destruct H as [-> ->]. cbn [is_null norm]. destruct (snd f0); reflexivity.
+  - change (repr_many (f0 :: f1 :: fs) sd) in H. destruct H as [-> HD].
+    cbn [is_null norm]. rewrite map_norm_nm.
+    destruct HD as [[_ ->]|[pp [-> [H2 _]]]].
+    + apply forallb_is_name_nm.
+    + cbn [is_null norm]. rewrite forallb_is_name_nm, (prepr_entries_ok _ _ H2), !map_length.
+      rewrite <- (Forall2_len _ _ _ H2), Nat.eqb_refl. reflexivity.
+Qed.
+
+(* for a caller dictionary without /Filter and /DecodeParms, and for one that declares a chain
+   (any shape) under at least one filter of OpenStream *)
+Lemma model_stream_dict_filters_ok n g d fs :
+  (dict_get k_Filter d = None -> dict_get k_DecodeParms d = None ->
+     filters_ok (norm_parms (stream_dict n g d fs)) = true) /\
+  (forall f fs' o, fs = f :: fs' -> dict_get k_Filter d = Some o ->
+     filters_ok (norm_parms (stream_dict n g d fs)) = true).
+Proof.
+  split.
+  - intros HF HD. destruct (stream_dict_repr_plain n g d fs HF HD) as [R [S1 S2]].
+    exact (chain_repr_filters_ok _ _ R S1 S2).
+  - intros f fs' o -> H. destruct (stream_dict_repr_declared n g d f fs' o H) as [R [S1 S2]].
+    exact (chain_repr_filters_ok _ _ R S1 S2).
 Qed.
 
 Section ModelWriter.
